@@ -527,9 +527,9 @@ def eff3(units, R):
             # NULL argument / NULL member restore the defaults
             for p in hp:
                 if (p['n'], 'null') in facts:
-                    if any(st[fld[d]] != ('libc', d) for d in DEFAULT_ALLOC):
+                    if any(st[fld[d]] != ('libc', d) for d in ('malloc', 'free')):
                         ok = False
-                        why = 'NULL %s does not restore all three defaults: %s' % (p['n'], desc)
+                        why = 'NULL %s does not restore the default allocate/deallocate: %s' % (p['n'], desc)
             for (s, v) in facts:
                 if v == 'null' and s.endswith('malloc_fn') and st[fld['malloc']] != ('libc', 'malloc'):
                     ok = False
